@@ -78,7 +78,7 @@ func init() {
 		NotDecided: []string{"observational equality of the two modes", "Clone independence until C16.clone is built"},
 		Assumptions: []string{},
 		Exhaustive: true,
-		Quick:      []string{"C04.buf", "C04.needcopy", "C15.reset"},
+		Quick:      []string{"C04.buf", "C04.needcopy", "C15.reset", "C16.clone"},
 	})
 	regProp(&PropInfo{ID: "C11",
 		Decides:    "Writer/reader agreement of the wire format, extracted independently from the two tag switches: per tag, value bytes written == required == consumed, tape words skipped == produced, tag byte written == matched (wire-only 'e' exactly for flagged floats, full word preserved), relative offsets taken and restored against the tag's own index (also directly after a flushed NOP run), NOP runs rebuilt with payload end−index; raw-size counters equal the bytes written to each block.",
@@ -93,5 +93,12 @@ func init() {
 		Assumptions: []string{"INV: iterator cursor fields (off) and validated extents (addNext) are non-negative", "one stated invariant for NextElementBytes (dst.off+elemSize is the container end or off+{0,1})"},
 		Exhaustive: true,
 		Quick:      []string{"C19.bounds", "C19.join", "C11.block", "C05.progress"},
+	})
+	regProp(&PropInfo{ID: "C13",
+		Decides:    "For every Set* method, on every path: the accepted tag set equals the documented one (so a w-word replacement is only applied to entries spanning w words), exactly the tag word / value word / NOP fill of the addressed entry are written with the method's tag and value, string storage is append-only with the offset taken before the append, the iterator's own view is updated, and a call that returns an error has written nothing.",
+		NotDecided: []string{"that every read API then shows the new value (C02/C10/C11/C14 rules cover their side)"},
+		Assumptions: []string{"the iterator is positioned on a value (off-1 is its tag word)"},
+		Exhaustive: true,
+		Quick:      []string{"C13.set", "C14.writers", "C02.sizeclass"},
 	})
 }
